@@ -166,6 +166,21 @@ type parseContext struct {
 	checker     *exclusionChecker // nil means no exclusion filtering
 }
 
+// flushList emits the list items collected so far as one list element.
+// The list context itself (inList, listLevel) is left alone: a heading,
+// paragraph or table found among the items of a <ul>/<ol> ends the current
+// list element, and the items that follow it start a new one.
+func (ctx *parseContext) flushList(elements *[]parsedElement) {
+	if ctx.inList && len(ctx.listItems) > 0 {
+		*elements = append(*elements, parsedElement{
+			Type:    ElementList,
+			Items:   ctx.listItems,
+			Ordered: ctx.listOrdered,
+		})
+		ctx.listItems = nil
+	}
+}
+
 // traverseNode recursively processes DOM nodes.
 func (r *Reader) traverseNode(n *html.Node, ctx *parseContext) {
 	if n.Type == html.ElementNode {
@@ -378,15 +393,7 @@ func (r *Reader) traverseNodeFiltered(n *html.Node, ctx *parseContext, elements 
 		switch n.Data {
 		case "h1", "h2", "h3", "h4", "h5", "h6":
 			// Flush list before heading
-			if ctx.inList && len(ctx.listItems) > 0 {
-				*elements = append(*elements, parsedElement{
-					Type:    ElementList,
-					Items:   ctx.listItems,
-					Ordered: ctx.listOrdered,
-				})
-				ctx.inList = false
-				ctx.listItems = nil
-			}
+			ctx.flushList(elements)
 
 			level := int(n.Data[1] - '0')
 			text := strings.TrimSpace(getTextContent(n))
@@ -401,14 +408,8 @@ func (r *Reader) traverseNodeFiltered(n *html.Node, ctx *parseContext, elements 
 
 		case "p", "div":
 			// Flush list before paragraph
-			if ctx.inList && len(ctx.listItems) > 0 && n.Data == "p" {
-				*elements = append(*elements, parsedElement{
-					Type:    ElementList,
-					Items:   ctx.listItems,
-					Ordered: ctx.listOrdered,
-				})
-				ctx.inList = false
-				ctx.listItems = nil
+			if n.Data == "p" {
+				ctx.flushList(elements)
 			}
 
 			text := strings.TrimSpace(getTextContent(n))
@@ -492,15 +493,7 @@ func (r *Reader) traverseNodeFiltered(n *html.Node, ctx *parseContext, elements 
 
 		case "table":
 			// Flush list before table
-			if ctx.inList && len(ctx.listItems) > 0 {
-				*elements = append(*elements, parsedElement{
-					Type:    ElementList,
-					Items:   ctx.listItems,
-					Ordered: ctx.listOrdered,
-				})
-				ctx.inList = false
-				ctx.listItems = nil
-			}
+			ctx.flushList(elements)
 
 			table := r.parseTable(n)
 			if table != nil && len(table.Rows) > 0 {
